@@ -10,7 +10,9 @@
 (* status of its horizontal position n,e and one of its height u: fixed / free / *)
 (* constrained), a covariance variant for the 3x3 vector blocks, a noise         *)
 (* pattern, a displacement pattern of the given coordinates of the adjusted      *)
-(* components and the order of the input records.                                *)
+(* components, instrument / target heights of distances and zenith angles,       *)
+(* antenna heights given with some of the vectors only, and the order of the     *)
+(* input records.                                                                *)
 (* Laws: Truth (noise 0: adjusted = generating coordinates whatever the given    *)
 (* coordinates of the adjusted components are), SetAlgorithm and PermuteRecords  *)
 (* change nothing, parameters = number of components that are not fixed,         *)
@@ -55,16 +57,20 @@ Choose == /\ net.k = 0
           /\ \E np \in 3..5, place \in Places, extra \in ExtraSets, status \in Patterns, cov \in 0..2 :
                /\ \A e \in extra : Edges[e][1] <= np /\ Edges[e][2] <= np
                /\ ((np * 7 + Len(place) * 3 + Cardinality(extra) * 11 + cov * 5 + Len(status) * 19 + Seed) % Keep = 0)
-               /\ \E noise \in 0..2, perm \in 0..3, ds \in 1..3, hs \in 1..3, dh \in 1..2, displ \in 0..1, zs \in 1..2, as \in 1..3, xs \in 1..3, idh \in 0..1, gross \in 0..2 :
+               /\ \E noise \in 0..2, perm \in 0..3, ds \in 1..3, hs \in 1..3, dh \in 1..2, displ \in 0..1, zs \in 1..2, as \in 1..3, xs \in 1..3, idh \in 0..1, gross \in 0..2, vdh \in 0..2 :
                     /\ (status = "xyzdatum" <=> xs > 1)
                     /\ (status = "hfix" => hs > 1)                  \* without observed heights the translation along the vertical stays free
                     /\ (status = "constr" => displ = 0)
-                    /\ (status \in {"constr", "pconstr"} => hs = 1 /\ dh = 1 /\ zs = 1 /\ as = 1)
+                    /\ (status \in {"constr", "pconstr"} => hs = 1 /\ dh = 1 /\ zs = 1 /\ as = 1 /\ vdh = 0)
                          \* the datum of a constrained network is its given coordinates; ellipsoidal heights, height differences and
                          \* angles referred to the local vertical depend (weakly) on the position and would change the defect
-                    /\ ((noise * 13 + perm * 17 + ds * 23 + hs * 29 + dh * 31 + displ * 37 + zs * 41 + as * 43 + xs * 53 + idh * 59 + np + cov + Seed) % Keep2 = 0 \/ gross > 0
+                    /\ ((noise * 13 + perm * 17 + ds * 23 + hs * 29 + dh * 31 + displ * 37 + zs * 41 + as * 43 + xs * 53 + idh * 59 + vdh * 61 + np + cov + Seed) % Keep2 = 0 \/ gross > 0
                           \/ (status = "pconstr" /\ noise = 0 /\ ds = 1 /\ xs = 1 /\ idh = 0 /\ perm = 0))      \* always generated
                     /\ (idh = 1 => ds > 1 \/ zs > 1)
+                    /\ (vdh > 0 => gross = 0)
+                         \* vdh: antenna heights on vectors. 1: every odd vector carries <from-dh> and <to-dh>, the even ones none;
+                         \* 2: the first vector carries only <to-dh>, the third only <from-dh>. A height given with one vector belongs
+                         \* to that vector alone, whatever record follows it
                     /\ (gross > 0 => noise = 0 /\ status \in {"fix1", "fix2"} /\ displ = 0 /\ ds = 1 /\ hs = 1 /\ dh = 1 /\ zs = 1 /\ as = 1 /\ idh = 0)
                     /\ (gross = 1 => extra # {})            \* a redundant vector is gross: it is rejected, the rest reproduces the network
                     /\ (gross = 2 => extra = {} /\ (status = "fix2" => np >= 4))   \* the vector that alone ties the last point is gross: the point drops out, others remain
@@ -74,7 +80,7 @@ Choose == /\ net.k = 0
                                dists |-> DistSets[ds], heights |-> HeightSets[hs], hdiffs |-> HdiffSets[dh],
                                zeniths |-> ZenSets[zs], angles |-> AngSets[as], xyzobs |-> XyzSets[xs],
                                status |-> status, pstat |-> [i \in 1..np |-> Status(status, i)], displ |-> displ,
-                               cov |-> cov, noise |-> noise, perm |-> perm, idh |-> idh, gross |-> gross,
+                               cov |-> cov, noise |-> noise, perm |-> perm, idh |-> idh, gross |-> gross, vdh |-> vdh,
                                offsets |-> [i \in 1..np |-> Pts[i]],
                                parameters |-> NonFixed(status, np) - (IF gross = 2 THEN 3 ELSE 0),
                                dropped |-> IF gross = 2 THEN np ELSE 0,             \* the point whose only tie is rejected has no unknowns left
